@@ -354,8 +354,12 @@ def flapConsts? : Option FlapConsts :=
   | some a, some b => some { weight0 := Float.ofBits a, maxWeight := Float.ofBits b }
   | _, _ => none
 
+/-- `updateFlapping` of the code for a decision `dec`: the loop start offset is the extracted one (an unrecognised
+loop gives offset 0 AND breaks `flap_loop_recognised`; the driver refuses to run then). -/
+def codeFlap (dec : FlapDecide) : FlapFn := ringFlap (Gen.flapStartOffset.getD 0) dec
+
 /-- `updateFlapping` as the driver executes it (float64). -/
-def goFlap (off : Nat) (k : FlapConsts) (low high : Float) : FlapFn := ringFlap off (floatDecide k low high)
+def goFlap (k : FlapConsts) (low high : Float) : FlapFn := codeFlap (floatDecide k low high)
 
 /-! ### Runs -/
 
